@@ -183,6 +183,35 @@ def check_units(ctx, cfgmod):
                 ctx.disagree("C15.bare", {"dim": fdim, "input": x, "code": got, "model": o})
 
 
+def check_every_unit_field(ctx, cfgmod):
+    """every field that takes a quantity, not one representative per dimension: the stored value is astropy's conversion to the
+    canonical unit (angles beyond a half turn included: 200 deg is 3.49 rad, not -160 deg), bare numbers are stored unchanged"""
+    from astropy import units as u
+    D, S = cfgmod.Detector, cfgmod.Simulation
+    fields = [(D.InitialPos, "altitude", u.km, ["1500 m", "0.5 Mm", 33.0]), (D.InitialPos, "latitude", u.rad, ["45 deg", "-89.5 deg", 0.3]),
+              (D.InitialPos, "longitude", u.rad, ["200 deg", "270 deg", "359.5 deg", "-190 deg", "180 deg", 4.0, -3.5, "21600 arcmin"]),
+              (D.SunMoon, "sun_alt_cut", u.rad, ["-18 deg", "-1080 arcmin", -0.2]), (D.SunMoon, "moon_alt_cut", u.rad, ["10 deg", "-5 deg", 0.1]),
+              (D.SunMoon, "moon_min_phase_angle_cut", u.rad, ["150 deg", "200 deg", 2.0]),
+              (D.Optical, "telescope_effective_area", u.m ** 2, ["25000 cm2", 2.5]), (D.Radio, "gain", u.dB, ["3 dB", 1.8]),
+              (S.TargetOfOpportunity, "source_RA", u.rad, ["250 deg", "16.5 hourangle", 5.0]), (S.TargetOfOpportunity, "source_DEC", u.rad, ["-60 deg", 0.4]),
+              (S, "max_cherenkov_angle", u.rad, ["3 deg", 0.05]), (S, "max_azimuth_angle", u.rad, ["360 deg", "200 deg", 6.0]), (S, "angle_from_limb", u.rad, ["7 deg", 0.1])]
+    for cls, name, canon, values in fields:
+        for v in values:
+            ctx.case(("unit-field", cls.__name__, name, str(v)), None)
+            ctx.count("every_unit_field_values")
+            want = float(u.Quantity(v).to_value(canon)) if isinstance(v, str) else float(v)
+            try:
+                got = float(getattr(cls(**{name: v}), name))
+            except Exception as e:  # noqa
+                ctx.violation("parse_units", "compatible-unit-rejected", f"{cls.__name__}.{name} = {v!r} is rejected: {type(e).__name__}: {str(e)[:80]}",
+                              {"field": f"{cls.__name__}.{name}", "input": v})
+                continue
+            if not same_float(got, want, 4e-16):
+                ctx.violation("parse_units", "unit-value" if isinstance(v, str) else "bare-number",
+                              f"{cls.__name__}.{name} = {v!r} is stored as {got!r} {canon}, not as {want!r} (astropy's conversion to the canonical unit)",
+                              {"field": f"{cls.__name__}.{name}", "input": v, "stored": got, "astropy": want})
+
+
 def check_band(ctx, cfgmod):
     rng = ctx.rng
     Radio = cfgmod.Detector.Radio
@@ -597,6 +626,7 @@ def run(ctx: Ctx):
     warm_process(ctx, nss)
     check_defaults(ctx, cfgmod)
     check_units(ctx, cfgmod)
+    check_every_unit_field(ctx, cfgmod)
     check_band(ctx, cfgmod)
     check_band_other_fields(ctx, cfgmod)
     check_locale_independence(ctx, cfgmod)
